@@ -239,7 +239,7 @@ class HistoryGen:
         if name == 'reopen':
             return {'op': name}
         if name == 'init_again':
-            return {'op': name}
+            return {'op': name, 'bad': rnd.choice([None, None, 'hash_type', 'prefix', 'pack_size'])}
         if name == 'damage_loose_readd':
             s = rnd.choice(self.present) if self.present else self.spec()
             self._note([s])
